@@ -21,7 +21,9 @@ Inductive ty :=
 | TRange (lo hi : bexp)                   (* int[lo,hi] *)
 | TConstRange (lo hi : bexp)              (* const int[lo,hi]: a parameter *)
 | TClock | TBool | TFun | TLoc
-| TScalar (owner : nat) (n : bexp).       (* a variable of a scalar set declared in template / process `owner` *)
+| TScalar (owner : nat) (n : bexp)        (* a variable of a scalar set declared in template / process `owner` *)
+| TShape (shape : nat) (bs : list bexp).  (* any other type - record, array, function, and their nestings - seen as its shape and the bound and size expressions in it:
+                                            type_t::subst rebuilds the type over the substituted expressions *)
 
 (* expression_t::subst: an IDENTIFIER node of that symbol is replaced, every other node is rebuilt over its substituted children *)
 Fixpoint bsubst (x : sym) (e : bexp) (b : bexp) : bexp :=
@@ -34,6 +36,7 @@ Definition tmap (f : bexp -> bexp) (t : ty) : ty :=
   match t with
   | TRange lo hi => TRange (f lo) (f hi) | TConstRange lo hi => TConstRange (f lo) (f hi) | TScalar o n => TScalar o (f n)
   | TClock => TClock | TBool => TBool | TFun => TFun | TLoc => TLoc
+  | TShape sh bs => TShape sh (map f bs)
   end.
 Definition tsubst (x : sym) (e : bexp) : ty -> ty := tmap (bsubst x e).
 Definition trename (from to : nat) (t : ty) : ty :=
@@ -82,7 +85,7 @@ End Meaning.
 Fixpoint fv (b : bexp) : list sym :=
   match b with BLit _ => [] | BVar s => [s] | BOp _ args => flat_map fv args end.
 Definition bounds_of (t : ty) : list bexp :=
-  match t with TRange lo hi => [lo; hi] | TConstRange lo hi => [lo; hi] | TScalar _ n => [n] | _ => [] end.
+  match t with TRange lo hi => [lo; hi] | TConstRange lo hi => [lo; hi] | TScalar _ n => [n] | TShape _ bs => bs | _ => [] end.
 (* an instantiation chain, innermost template first: the parameters are distinct and no argument mentions its own parameter or
    one of a level below it (it may mention parameters of the levels wrapped around it, and anything that is not a parameter) *)
 Fixpoint tri (seen : list sym) (m : list (sym * bexp)) : Prop :=
